@@ -1183,6 +1183,7 @@ type arelspec = { rs_parent : char list; rs_items : aitem list }
 type avalue =
 | AvInt of char list
 | AvText of char list
+| AvDouble of char list * char list
 
 type adomain =
 | ADiscrete of avalue list
